@@ -7,14 +7,14 @@ From Coq Require Import Lia Permutation.
 From SV Require Import Model.GroupKey Model.Counting Proofs.GroupKeyProofs.
 
 (* ---- keyed buffers ------------------------------------------------------------------------ *)
-Lemma buf_get_set_same : forall st k v, buf_get (buf_set st k v) k = v.
+Lemma buf_get_set_same : forall st k v, cw_buf_get (cw_buf_set st k v) k = v.
 Proof.
   induction st as [|[k0 b0] st IH]; simpl; intros k v.
   - rewrite bytes_eqb_refl. reflexivity.
   - destruct (bytes_eqb k k0) eqn:E; simpl; rewrite E; auto.
 Qed.
 
-Lemma buf_get_set_other : forall st k v k', k' <> k -> buf_get (buf_set st k v) k' = buf_get st k'.
+Lemma buf_get_set_other : forall st k v k', k' <> k -> cw_buf_get (cw_buf_set st k v) k' = cw_buf_get st k'.
 Proof.
   induction st as [|[k0 b0] st IH]; simpl; intros k v k' Hne.
   - apply bytes_eqb_neq in Hne. rewrite Hne. reflexivity.
@@ -25,11 +25,11 @@ Proof.
 Qed.
 
 (* ---- the cut -------------------------------------------------------------------------------- *)
-Definition fired_rows (f : option (list row)) : list row := match f with Some d => d | None => [] end.
+Definition fired_rows (f : option (list krow)) : list krow := match f with Some d => d | None => [] end.
 
-Lemma cut_app : forall n b rest f, cut n b = (rest, f) -> fired_rows f ++ rest = b.
+Lemma cut_app : forall n b rest f, cw_cut n b = (rest, f) -> fired_rows f ++ rest = b.
 Proof.
-  unfold cut. intros n b rest f H.
+  unfold cw_cut. intros n b rest f H.
   destruct (n <=? length b) eqn:E1.
   - destruct (n <? length b) eqn:E2; injection H as <- <-; simpl.
     + apply firstn_skipn.
@@ -41,10 +41,10 @@ Qed.
 (* below the threshold before the row: either exactly n rows fire and nothing remains, or
    nothing fires and the buffer stays below the threshold *)
 Lemma cut_small : forall n buf r, length buf < n ->
-  (length (buf ++ [r]) = n /\ cut n (buf ++ [r]) = ([], Some (buf ++ [r])))
-  \/ (length (buf ++ [r]) < n /\ cut n (buf ++ [r]) = (buf ++ [r], None)).
+  (length (buf ++ [r]) = n /\ cw_cut n (buf ++ [r]) = ([], Some (buf ++ [r])))
+  \/ (length (buf ++ [r]) < n /\ cw_cut n (buf ++ [r]) = (buf ++ [r], None)).
 Proof.
-  intros n buf r L. unfold cut. rewrite app_length in *. simpl in *.
+  intros n buf r L. unfold cw_cut. rewrite app_length in *. simpl in *.
   destruct (n <=? length buf + 1) eqn:E1.
   - apply Nat.leb_le in E1. left. split; [lia|].
     assert (E2 : (n <? length buf + 1) = false) by (apply Nat.ltb_ge; lia).
@@ -53,34 +53,34 @@ Proof.
 Qed.
 
 Section Counting.
-  Variable key : row -> bytes.
+  Variable key : krow -> bytes.
   Variable n : nat.
 
   (* the window of ONE key: what c_add does to the buffer of k, on k's rows only *)
-  Fixpoint run1 (k : bytes) (buf : list row) (l : list row) : list (bytes * list row) :=
+  Fixpoint run1 (k : bytes) (buf : list krow) (l : list krow) : list (bytes * list krow) :=
     match l with
     | [] => []
     | r :: l' =>
-        let (rest, f) := cut n (buf ++ [r]) in
+        let (rest, f) := cw_cut n (buf ++ [r]) in
         match f with
         | Some d => (k, d) :: run1 k rest l'
         | None => run1 k rest l'
         end
     end.
 
-  Let proj (k : bytes) (out : list (bytes * list row)) := filter (fun b => bytes_eqb (fst b) k) out.
-  Let sub (k : bytes) (h : list row) := filter (fun r => bytes_eqb (key r) k) h.
+  Let proj (k : bytes) (out : list (bytes * list krow)) := filter (fun b => bytes_eqb (fst b) k) out.
+  Let sub (k : bytes) (h : list krow) := filter (fun r => bytes_eqb (key r) k) h.
 
   Lemma c_run_proj : forall h st k,
-    proj k (snd (c_run key n st h)) = run1 k (buf_get st k) (sub k h).
+    proj k (snd (cw_steps key n st h)) = run1 k (cw_buf_get st k) (sub k h).
   Proof.
     induction h as [|r h IH]; intros st k; simpl; [reflexivity|].
-    destruct (c_add key n st r) as [st1 o1] eqn:E1.
-    destruct (c_run key n st1 h) as [st2 o2] eqn:E2. simpl.
+    destruct (cw_add key n st r) as [st1 o1] eqn:E1.
+    destruct (cw_steps key n st1 h) as [st2 o2] eqn:E2. simpl.
     unfold proj. rewrite filter_app. fold (proj k o1) (proj k o2).
     specialize (IH st1 k). rewrite E2 in IH. simpl in IH. rewrite IH. clear IH E2.
-    unfold c_add in E1.
-    destruct (cut n (buf_get st (key r) ++ [r])) as [rest f] eqn:EC.
+    unfold cw_add in E1.
+    destruct (cw_cut n (cw_buf_get st (key r) ++ [r])) as [rest f] eqn:EC.
     injection E1 as <- <-.
     destruct (bytes_eqb (key r) k) eqn:EK.
     - apply bytes_eqb_iff in EK. subst k. simpl. rewrite EC.
@@ -91,13 +91,13 @@ Section Counting.
       destruct f as [d|]; simpl; [rewrite EK|]; reflexivity.
   Qed.
 
-  Lemma c_run_keys : forall h st b, In b (snd (c_run key n st h)) -> exists r, In r h /\ fst b = key r.
+  Lemma c_run_keys : forall h st b, In b (snd (cw_steps key n st h)) -> exists r, In r h /\ fst b = key r.
   Proof.
     induction h as [|r h IH]; intros st b; simpl; [contradiction|].
-    destruct (c_add key n st r) as [st1 o1] eqn:E1.
-    destruct (c_run key n st1 h) as [st2 o2] eqn:E2. simpl.
+    destruct (cw_add key n st r) as [st1 o1] eqn:E1.
+    destruct (cw_steps key n st1 h) as [st2 o2] eqn:E2. simpl.
     intro Hin. apply in_app_or in Hin. destruct Hin as [Hin|Hin].
-    - unfold c_add in E1. destruct (cut n (buf_get st (key r) ++ [r])) as [rest f].
+    - unfold cw_add in E1. destruct (cw_cut n (cw_buf_get st (key r) ++ [r])) as [rest f].
       injection E1 as <- <-. destruct f as [d|]; [|contradiction].
       destruct Hin as [<-|[]]. exists r. auto.
     - specialize (IH st1 b). rewrite E2 in IH. destruct (IH Hin) as [r' [H1 H2]]. exists r'. auto.
@@ -116,10 +116,10 @@ Section Counting.
 
   (* KEY ISOLATION: the batches of key k are what the window produces on k's rows alone *)
   Theorem key_isolation_gen : forall h k,
-    proj k (snd (c_run key n [] h)) = snd (c_run key n [] (sub k h)).
+    proj k (snd (cw_steps key n [] h)) = snd (cw_steps key n [] (sub k h)).
   Proof.
     intros h k. rewrite c_run_proj. simpl.
-    assert (H : proj k (snd (c_run key n [] (sub k h))) = snd (c_run key n [] (sub k h))).
+    assert (H : proj k (snd (cw_steps key n [] (sub k h))) = snd (cw_steps key n [] (sub k h))).
     { apply filter_all. intros b Hb. apply c_run_keys in Hb. destruct Hb as [r [Hr ->]].
       unfold sub in Hr. apply filter_In in Hr. tauto. }
     rewrite <- H, c_run_proj. simpl. unfold sub. rewrite filter_idem. reflexivity.
@@ -127,19 +127,19 @@ Section Counting.
 
   (* every row of a batch carries the key the batch was cut for *)
   Lemma c_run_rows_key : forall h st,
-    (forall k r, In r (buf_get st k) -> key r = k) ->
-    (forall b r, In b (snd (c_run key n st h)) -> In r (snd b) -> key r = fst b)
-    /\ (forall k r, In r (buf_get (fst (c_run key n st h)) k) -> key r = k).
+    (forall k r, In r (cw_buf_get st k) -> key r = k) ->
+    (forall b r, In b (snd (cw_steps key n st h)) -> In r (snd b) -> key r = fst b)
+    /\ (forall k r, In r (cw_buf_get (fst (cw_steps key n st h)) k) -> key r = k).
   Proof.
     induction h as [|r h IH]; intros st HI; simpl; [split; [contradiction|exact HI]|].
-    destruct (c_add key n st r) as [st1 o1] eqn:E1.
-    destruct (c_run key n st1 h) as [st2 o2] eqn:E2. simpl.
-    unfold c_add in E1. destruct (cut n (buf_get st (key r) ++ [r])) as [rest f] eqn:EC.
+    destruct (cw_add key n st r) as [st1 o1] eqn:E1.
+    destruct (cw_steps key n st1 h) as [st2 o2] eqn:E2. simpl.
+    unfold cw_add in E1. destruct (cw_cut n (cw_buf_get st (key r) ++ [r])) as [rest f] eqn:EC.
     injection E1 as <- <-.
-    assert (Hb : forall x, In x (buf_get st (key r) ++ [r]) -> key x = key r).
+    assert (Hb : forall x, In x (cw_buf_get st (key r) ++ [r]) -> key x = key r).
     { intros x Hx. apply in_app_or in Hx. destruct Hx as [Hx|[<-|[]]]; auto. }
     apply cut_app in EC.
-    assert (HI1 : forall k x, In x (buf_get (buf_set st (key r) rest) k) -> key x = k).
+    assert (HI1 : forall k x, In x (cw_buf_get (cw_buf_set st (key r) rest) k) -> key x = k).
     { intros k x Hx. destruct (list_eq_dec N.eq_dec k (key r)) as [->|Hne].
       - rewrite buf_get_set_same in Hx. apply Hb. rewrite <- EC. apply in_or_app. auto.
       - rewrite buf_get_set_other in Hx by exact Hne. auto. }
@@ -182,7 +182,7 @@ Section Counting.
       + rewrite (IH k (buf ++ [r]) i Lb). rewrite <- app_assoc. reflexivity.
   Qed.
 
-  Lemma nth_closed_length : forall (L : list (list row)) (l : list row),
+  Lemma nth_closed_length : forall (L : list (list krow)) (l : list krow),
     (forall i, nth_error L i =
        if S i * n <=? length l then Some (firstn n (skipn (i * n) l)) else None) ->
     length L = length l / n /\ Forall (fun b => length b = n) L.
@@ -203,11 +203,11 @@ Section Counting.
   Qed.
 
   (* nothing lost, nothing duplicated: emitted rows + rows still buffered = rows added *)
-  Definition all_rows (st : cstate) : list row := concat (map snd st).
+  Definition all_rows (st : cw_state) : list krow := concat (map snd st).
 
   Lemma buf_split : forall st k, exists C,
-    Permutation (all_rows st) (buf_get st k ++ C)
-    /\ forall v, Permutation (all_rows (buf_set st k v)) (v ++ C).
+    Permutation (all_rows st) (cw_buf_get st k ++ C)
+    /\ forall v, Permutation (all_rows (cw_buf_set st k v)) (v ++ C).
   Proof.
     unfold all_rows.
     induction st as [|[k0 b0] st IH]; intro k; simpl.
@@ -219,11 +219,11 @@ Section Counting.
         * intro v. rewrite (H2 v). rewrite !app_assoc. apply Permutation_app_tail. apply Permutation_app_comm.
   Qed.
 
-  Lemma c_add_conserves : forall st r st1 o1, c_add key n st r = (st1, o1) ->
+  Lemma c_add_conserves : forall st r st1 o1, cw_add key n st r = (st1, o1) ->
     Permutation (concat (map snd o1) ++ all_rows st1) (all_rows st ++ [r]).
   Proof.
-    intros st r st1 o1 E. unfold c_add in E.
-    destruct (cut n (buf_get st (key r) ++ [r])) as [rest f] eqn:EC.
+    intros st r st1 o1 E. unfold cw_add in E.
+    destruct (cw_cut n (cw_buf_get st (key r) ++ [r])) as [rest f] eqn:EC.
     injection E as <- <-. apply cut_app in EC.
     destruct (buf_split st (key r)) as [C [H1 H2]].
     rewrite (H2 rest), H1.
@@ -234,13 +234,13 @@ Section Counting.
   Qed.
 
   Theorem c_run_conserves : forall h st,
-    Permutation (concat (map snd (snd (c_run key n st h))) ++ all_rows (fst (c_run key n st h)))
+    Permutation (concat (map snd (snd (cw_steps key n st h))) ++ all_rows (fst (cw_steps key n st h)))
                 (all_rows st ++ h).
   Proof.
     induction h as [|r h IH]; intro st; simpl.
     - rewrite app_nil_r. apply Permutation_refl.
-    - destruct (c_add key n st r) as [st1 o1] eqn:E1.
-      specialize (IH st1). destruct (c_run key n st1 h) as [st2 o2]. simpl in *.
+    - destruct (cw_add key n st r) as [st1 o1] eqn:E1.
+      specialize (IH st1). destruct (cw_steps key n st1 h) as [st2 o2]. simpl in *.
       rewrite map_app, concat_app, <- app_assoc, IH.
       rewrite app_assoc, (c_add_conserves _ _ _ _ E1), <- app_assoc. reflexivity.
   Qed.
@@ -250,47 +250,47 @@ End Counting.
 Lemma bool_eq_iff : forall a b : bool, (a = true <-> b = true) -> a = b.
 Proof. intros [|] [|] H; auto; [symmetry|]; apply H; reflexivity. Qed.
 
-Lemma sub_rows_of : forall c h t, Forall (fun r => length (rvals r) = c) h -> length t = c ->
-  filter (fun r => bytes_eqb (cnt_key r) (tuple_key s_global t)) h = rows_of t h.
+Lemma sub_rows_of : forall c h t, Forall (fun r => length (kvals r) = c) h -> length t = c ->
+  filter (fun r => bytes_eqb (cnt_key r) (tuple_key s_global t)) h = krows_of t h.
 Proof.
-  intros c h t HC Lt. unfold rows_of. apply filter_ext_in. intros r Hr.
-  apply bool_eq_iff. rewrite bytes_eqb_iff, tuple_eqb_iff.
+  intros c h t HC Lt. unfold krows_of. apply filter_ext_in. intros r Hr.
+  apply bool_eq_iff. rewrite bytes_eqb_iff, ktuple_eqb_iff.
   rewrite Forall_forall in HC. specialize (HC r Hr).
   unfold cnt_key, win_key. split.
-  - apply tuple_key_inj. rewrite tuple_of_length. congruence.
+  - apply tuple_key_inj. rewrite ktuple_of_length. congruence.
   - intros ->. reflexivity.
 Qed.
 
 Theorem counting_key_isolation : forall n h k,
-  filter (fun b => bytes_eqb (fst b) k) (run n h)
-  = run n (filter (fun r => bytes_eqb (cnt_key r) k) h).
-Proof. intros. unfold run. apply key_isolation_gen. Qed.
+  filter (fun b => bytes_eqb (fst b) k) (cw_run n h)
+  = cw_run n (filter (fun r => bytes_eqb (cnt_key r) k) h).
+Proof. intros. unfold cw_run. apply key_isolation_gen. Qed.
 
 Theorem counting_ith_batch : forall n c h t i, 1 <= n ->
-  Forall (fun r => length (rvals r) = c) h -> length t = c ->
-  nth_error (batches_of (tuple_key s_global t) (run n h)) i =
-    if S i * n <=? length (rows_of t h)
-    then Some (firstn n (skipn (i * n) (rows_of t h))) else None.
+  Forall (fun r => length (kvals r) = c) h -> length t = c ->
+  nth_error (kbatches_of (tuple_key s_global t) (cw_run n h)) i =
+    if S i * n <=? length (krows_of t h)
+    then Some (firstn n (skipn (i * n) (krows_of t h))) else None.
 Proof.
-  intros n c h t i Hn HC Lt. unfold batches_of, run.
-  rewrite c_run_proj. simpl buf_get.
+  intros n c h t i Hn HC Lt. unfold kbatches_of, cw_run.
+  rewrite c_run_proj. simpl cw_buf_get.
   rewrite (sub_rows_of c h t HC Lt).
   rewrite run1_nth by (simpl; lia). reflexivity.
 Qed.
 
 Theorem counting_no_partial : forall n c h t, 1 <= n ->
-  Forall (fun r => length (rvals r) = c) h -> length t = c ->
-  length (batches_of (tuple_key s_global t) (run n h)) = length (rows_of t h) / n
-  /\ Forall (fun b => length b = n) (batches_of (tuple_key s_global t) (run n h)).
+  Forall (fun r => length (kvals r) = c) h -> length t = c ->
+  length (kbatches_of (tuple_key s_global t) (cw_run n h)) = length (krows_of t h) / n
+  /\ Forall (fun b => length b = n) (kbatches_of (tuple_key s_global t) (cw_run n h)).
 Proof.
   intros n c h t Hn HC Lt. apply nth_closed_length; [exact Hn|].
   intro i. apply (counting_ith_batch n c h t i Hn HC Lt).
 Qed.
 
 Theorem counting_batch_one_tuple : forall n h k rs r,
-  In (k, rs) (run n h) -> In r rs -> k = cnt_key r.
+  In (k, rs) (cw_run n h) -> In r rs -> k = cnt_key r.
 Proof.
-  intros n h k rs r Hin Hr. unfold run in Hin.
+  intros n h k rs r Hin Hr. unfold cw_run in Hin.
   destruct (c_run_rows_key cnt_key n h []) as [H _]; [intros ? ? []|].
   symmetry. apply (H (k, rs) r Hin Hr).
 Qed.
@@ -304,15 +304,15 @@ Proof.
 Qed.
 
 Theorem counting_once : forall n h,
-  NoDup (map rid h) -> NoDup (map rid (concat (map snd (run n h)))).
+  NoDup (map krid h) -> NoDup (map krid (concat (map snd (cw_run n h)))).
 Proof.
-  intros n h ND. unfold run.
+  intros n h ND. unfold cw_run.
   assert (P := c_run_conserves cnt_key n h []). simpl in P.
-  apply (Permutation_map rid) in P. rewrite map_app in P.
+  apply (Permutation_map krid) in P. rewrite map_app in P.
   apply Permutation_sym in P. apply (Permutation_NoDup P) in ND.
   apply NoDup_app_left in ND. exact ND.
 Qed.
 
 Theorem counting_conservation : forall n h,
-  Permutation (concat (map snd (run n h)) ++ all_rows (fst (c_run cnt_key n [] h))) h.
+  Permutation (concat (map snd (cw_run n h)) ++ all_rows (fst (cw_steps cnt_key n [] h))) h.
 Proof. intros n h. apply (c_run_conserves cnt_key n h []). Qed.
